@@ -98,6 +98,10 @@ def instances(tier, seed):
         for args, ress in ((['zstr'], ['x', 'u']), (['x', 'zstr'], ['x']), (['p:a', 'zstr'], ['u'])):
             add(spec=model(dae=True), cfg=Cfg('DC', N=[2, 3][n % 2], M=[1, 2][(n // 2 + 1) % 2], grid=fam.G_UNI, degree=[2, 3][n % 2], scheme='radau'), args=args, results=ress)
             n += 1
+        if rep == 0:
+            for args, ress in ((['x', 'zstr'], ['x']), (['zstr'], ['u'])):
+                add(spec=model(dae=True), cfg=Cfg('DC', N=2, M=1, grid=fam.G_UNI, degree=3, scheme='radau'), args=args, results=ress, twice=True)
+            add(spec=model(), cfg=Cfg('MS', N=2, M=1, intg='rk', grid=fam.G_UNI), args=['p:a', 'x'], results=['x', 'u'], twice=True)
         # a guess for the free end time as argument, on plain and on localized time grids
         for g in (fam.G_UNI, fam.G_GEO_LOC, fam.G_UNI_LT, fam.G_FREE):
             for method, intg in (('MS', 'rk'), ('DC', None)):
@@ -167,6 +171,9 @@ def run(item):
         x0_before = list(I.nlp.x0())
         p_before = list(I.nlp.pval())
         x0_before_opti = ocp._method.opti.debug.value(ocp._method.opti.x, ocp._method.opti.initial())
+        if item.get('twice'):
+            # the SAME Python list object is handed to to_function twice: the second Function is the one examined
+            ocp.to_function('F0', args_mx, res_mx)
         F = ocp.to_function('F', args_mx, res_mx)
     # split the graph at the solver call
     solver = helper = None
